@@ -373,10 +373,57 @@ func (s *Store) BV2(op string, a, b *Term) *Term {
 			return s.BVConst(0, w)
 		}
 	}
-	return s.app(op, a.S, a, b)
+	r := s.app(op, a.S, a, b)
+	if op == "bvor" && w <= 64 {
+		if src, m, ok := lanes(r); ok && m == mask(w) && src.S.W == w {
+			return src
+		}
+	}
+	return r
 }
 
 func isBVConst(t *Term, v uint64) bool { return t.Op == "bvconst" && t.BV == v }
+
+// lanes recognises terms that consist of bits of one source term at their
+// original positions (zero elsewhere): the shape produced by reassembling a
+// word from its bytes with shifts and ors (binary.LittleEndian.Uint64 etc.).
+func lanes(t *Term) (src *Term, m uint64, ok bool) {
+	w := t.S.W
+	if w > 64 {
+		return nil, 0, false
+	}
+	switch t.Op {
+	case "zext":
+		in := t.Args[0]
+		if in.Op == "extract" && in.P2 == 0 && in.Args[0].S.W == w {
+			return in.Args[0], mask(in.P1 + 1), true
+		}
+		if s2, m2, ok2 := lanes(in); ok2 && s2.S.W == w {
+			return s2, m2, true
+		}
+	case "bvshl":
+		c := t.Args[1]
+		in := t.Args[0]
+		if c.Op == "bvconst" && in.Op == "zext" {
+			e := in.Args[0]
+			if e.Op == "extract" && e.Args[0].S.W == w && uint64(e.P2) == c.BV {
+				return e.Args[0], (mask(e.P1-e.P2+1) << uint(e.P2)) & mask(w), true
+			}
+		}
+	case "bvor":
+		s1, m1, ok1 := lanes(t.Args[0])
+		s2, m2, ok2 := lanes(t.Args[1])
+		if ok1 && ok2 && s1 == s2 && m1&m2 == 0 {
+			return s1, m1 | m2, true
+		}
+	case "bvand":
+		if c := t.Args[1]; c.Op == "bvconst" {
+			// x & contiguous-low-mask
+			return t.Args[0], c.BV, true
+		}
+	}
+	return nil, 0, false
+}
 
 func (s *Store) BVCmp(op string, a, b *Term) *Term {
 	if a.S != b.S {
